@@ -403,11 +403,25 @@ DIRECTED = [
      {'a.xml': ISAR % '<constant name="A" value="0xE+1"/><struct name="S"><member name="x" type="u8"><dimension size="0xFE+1"/></member></struct>'}, 'a.xml', 'reject'),
     ('isar: the same with blanks', '--isar',
      {'a.xml': ISAR % '<constant name="A" value="0xE + 1"/><struct name="S"><member name="x" type="u8"><dimension size="0xFE + 1"/></member></struct>'}, 'a.xml', 'usable'),
+    ('member named like the first enumerator of its neighbour\'s enum type (direct)', None,
+     {'a.prophy': 'enum E { E_First = 1, E_Second = 2 };\nstruct Y { E a; u32 E_First; };\n'}, 'a.prophy', 'reject'),
+    ('the same behind one typedef', None,
+     {'a.prophy': 'enum E { E_First = 1, E_Second = 2 };\ntypedef E T;\nstruct Y { T a; u32 E_First; };\n'}, 'a.prophy', 'reject'),
+    ('the same behind two typedefs', None,
+     {'a.prophy': 'enum E { E_First = 1, E_Second = 2 };\ntypedef E T;\ntypedef T TT;\nstruct Y { TT a; u32 E_First; };\n'}, 'a.prophy', 'reject'),
+    ('the same behind three typedefs, in a union', None,
+     {'a.prophy': 'enum E { E_First = 1, E_Second = 2 };\ntypedef E T;\ntypedef T TT;\ntypedef TT TTT;\nunion U { 1: TTT a; 2: u32 E_First; };\n'}, 'a.prophy', 'reject'),
+    ('enum field behind two typedefs, no clash', None,
+     {'a.prophy': 'enum E { E_First = 1, E_Second = 2 };\ntypedef E T;\ntypedef T TT;\nstruct Y { TT a; u32 b; TT c[2]; };\n'}, 'a.prophy', 'usable'),
     ('struct named like a block of the raw C++ header (D177)', None,
      {'a.prophy': 'struct part2 { u32 v; u32 w; };\nstruct X { u8 a<>; u8 b; u8 c<>; part2 d; u8 e; };\n'}, 'a.prophy', 'reject'),
     ('isar: struct named _discriminator used as a union arm (D177)', '--isar',
      {'a.xml': ISAR % ('<struct name="_discriminator"><member name="a" type="u64"/><member name="b" type="u64"/></struct>'
                        '<union name="U"><member name="x" type="_discriminator" discriminatorValue="1"/></union>')}, 'a.xml', 'reject'),
+    ('isar: a tab inside expression text (D181)', '--isar',
+     {'a.xml': ISAR % '<constant name="K" value="1&#9;+ 2"/><struct name="S"><member name="x" type="u8"><dimension size="K&#9;+1"/></member></struct>'}, 'a.xml', 'usable'),
+    ('isar: a form feed inside expression text', '--isar',
+     {'a.xml': ISAR % '<constant name="K" value="1&#12;+ 2"/>'}, 'a.xml', 'reject'),
     ('constant written with a digit of another script (D176)', None, {'a.prophy': 'const A = 1\u0663;\nstruct S { u8 x[A]; };\n'}, 'a.prophy', 'reject'),
     ('constant written with fullwidth digits (D176)', None, {'a.prophy': 'const A = \uff11\uff12;\nstruct S { u8 x[A]; };\n'}, 'a.prophy', 'reject'),
     ('isar: negative enumerator with an underscore (D176)', '--isar',
